@@ -496,6 +496,14 @@ pub fn gen(rng: &mut Rng, max_types: usize, max_procs: usize, max_depth: usize) 
             } else {
                 local_name(g.rng, &mut local_names)
             };
+            // sometimes a parameter is named like a global type (parameter types resolve globally, so later
+            // parameters may still use that type; later LOCAL declarations may not: see below)
+            let vname = if nt > 0 && g.rng.chance(1, 10) {
+                let tn = g.p.types[g.rng.below(nt)].name.clone();
+                if local_names.contains(&tn) { vname } else { local_names.push(tn.clone()); tn }
+            } else {
+                vname
+            };
             let ty = if nt > 0 && g.rng.chance(1, 2) { Ty::Named(g.rng.below(nt)) } else { Ty::Int };
             let is_array = !g.dims_of(&ty).is_empty();
             let is_ref = is_array || g.rng.chance(1, 3);
@@ -503,7 +511,9 @@ pub fn gen(rng: &mut Rng, max_types: usize, max_procs: usize, max_depth: usize) 
         }
         for _ in 0..g.rng.below(4) {
             let vname = local_name(g.rng, &mut local_names);
-            let ty = if nt > 0 && g.rng.chance(1, 2) { Ty::Named(g.rng.below(nt)) } else { Ty::Int };
+            // a local variable's type must not be hidden by an earlier parameter/local of the same name
+            let usable: Vec<usize> = (0..nt).filter(|&ti| !local_names.contains(&g.p.types[ti].name)).collect();
+            let ty = if !usable.is_empty() && g.rng.chance(1, 2) { Ty::Named(*g.rng.pick(&usable)) } else { Ty::Int };
             let anon_dims: Vec<u32> = if g.rng.chance(1, 5) { vec![1 + g.rng.below(5) as u32] } else { vec![] };
             vars.push(VarDef { name: vname, ty, is_ref: false, is_param: false, anon_dims });
         }
